@@ -45,7 +45,7 @@ CFG = {
         # the frame lemma (memories agreeing on the nodes erase visits denote the same tree)
         "Heap.erase_agree", "Heap.adjust_climb", "Heap.C11_heap_insert_nosplit_refines_partial", "Heap.pathOKb_sound",
         # … condenseTree's upward loop along the stored parent links (no underflow on the path): Delete on trees of any height, under the path hypotheses
-        "Heap.condense_climb", "Heap.delIn_rebuild", "Heap.C11_heap_delete_nounderflow_refines_partial",
+        "Heap.condense_climb", "Heap.delIn_rebuild", "Heap.C11_heap_delete_nounderflow_refines_partial", "Heap.onPathb_sound",
         # T1: definitions regenerated from index/rtree/{geom,rtree}.go of the tree under test = the model's
         "C11_tie_size", "C11_tie_margin", "C11_tie_containsPoint", "C11_tie_containsRect", "C11_tie_intersect",
         "C11_tie_enlarge", "C11_tie_initBoundingBox", "C11_tie_boundingBox", "C11_tie_computeBoundingBox",
